@@ -138,7 +138,12 @@ class RoundTrip(Case):
             xs = [SR(z3.Real('x%d' % i)) for i in range(2)]
             for v in xs:
                 assume(z3.And(v.e >= q(0.001), v.e <= 1))
-            assume(xs[0].e + xs[1].e <= q(0.999))
+            if self.pin.get('column'):
+                # two compositions of ONE component each, shape (2, 1): every row has its own closure
+                for v in xs:
+                    assume(v.e <= q(0.999))
+            else:
+                assume(xs[0].e + xs[1].e <= q(0.999))
         else:
             xs = [SR(z3.Real('x%d' % i)) for i in range(self.n)]
             for v in xs:
@@ -158,7 +163,8 @@ class RoundTrip(Case):
             set_params(tr, I['P'], I['C'])
         sym = any(isinstance(v, SR) for v in I['x'])
         if self.cls == 'Softmax':
-            x = core.symarray(I['x']).reshape(1, 2) if sym else np.array([I['x']], dtype=float)
+            shp = (2, 1) if self.pin.get('column') else (1, 2)
+            x = core.symarray(I['x']).reshape(shp) if sym else np.array(I['x'], dtype=float).reshape(shp)
         else:
             x = core.symarray(I['x']) if sym else np.array(I['x'], dtype=float)
         y = tr.forward(x)
@@ -213,7 +219,7 @@ def cases(tier):
             RoundTrip('BoxCox2', dict(mininu=0.25)), RoundTrip('BoxCox1nu', dict(minilam=-1.0)), RoundTrip('BoxCox2sym', dict(minilam=-1.0)),
             RoundTrip('Reciprocal', dict(mininu=0.5)), RoundTrip('BoxCox2', via_get=True), RoundTrip('Log', dict(base=2.0), via_get=True),
             # a = b = 1 exactly: the domain guard of LogSinh is then decided in linear arithmetic (no EXP abstraction in the way)
-            RoundTrip('LogSinh', pin=dict(loga=0.0, logb=0.0))]
+            RoundTrip('LogSinh', pin=dict(loga=0.0, logb=0.0)), RoundTrip('Softmax', pin=dict(column=1))]
     # exponents pinned to the branch values and to values whose reciprocal is exact in binary (no EXP-abstraction slack, every label is decided)
     out += [RoundTrip('YeoJohnson', pin=dict(lam=l)) for l in (0.0, 1.0, 2.0)]
     out += [RoundTrip('BoxCox2', pin=dict(lam=l)) for l in (-1.0, 0.0, 0.5, 1.0, 2.0)]
